@@ -57,6 +57,7 @@ type ConnEvent struct {
 	ExpectSP       bool // model: a session existed and clean start was 0
 	Clean          bool
 	TookOver       int // peer id of the connection that was live for this cid (-1 none)
+	AckStep        int // step at which the CONNACK was observed
 }
 
 type Model struct {
@@ -96,6 +97,34 @@ func findObs(s *Step, peer int, typ byte, pid uint16) *refmqtt.Packet {
 // Analyze replays the executed history through the reference model.
 func Analyze(r *Run) *Model {
 	m := &Model{Sessions: map[string]*Session{}, Connected: map[string]int{}, Snaps: map[int]*Snapshot{}, StepSnaps: map[int]*Snapshot{}, EndedAt: map[int]string{}}
+	pending := map[int]*ConnEvent{} // connections whose CONNACK has not been seen yet (it may arrive in a later step when the handler was parked)
+	complete := func(s *Step, ce *ConnEvent, ack *refmqtt.Packet) {
+		p := r.Peers[ce.Peer]
+		if prev, ok := m.Connected[p.CID]; ok && prev != p.ID {
+			ce.TookOver = prev
+		}
+		ce.Success, ce.SessionPresent = true, ack.SessionPresent
+		ce.AckStep = s.I
+		se, exists := m.Sessions[p.CID]
+		if exists && ce.TookOver >= 0 && se.Version < 5 && se.Clean {
+			// an MQTT 3 clean session lasts only as long as its network connection: taking the connection
+			// over ends it, whatever the new connection asks for (MQTT 3.1.1 §3.1.2.4)
+			exists = false
+		}
+		ce.ExpectSP = exists && !p.Connect.CleanStart
+		if !exists || p.Connect.CleanStart {
+			se = &Session{CID: p.CID, Subs: map[string]*SubState{}, CreatedStep: s.I}
+			m.Sessions[p.CID] = se
+		}
+		se.Version = p.Version
+		se.Clean = p.Connect.CleanStart
+		se.DiscStep = -1
+		se.ExpirySet, se.Expiry = false, 0
+		if p.Version == 5 && p.Connect.Props.SessionExpiry != nil {
+			se.ExpirySet, se.Expiry = true, *p.Connect.Props.SessionExpiry
+		}
+		m.Connected[p.CID] = p.ID
+	}
 	for _, s := range r.Steps {
 		a := &s.A
 		if s.Tag > 0 && (a.Kind == "publish" || a.Kind == "inline-pub") && a.Retransmit == 0 {
@@ -112,28 +141,7 @@ func Analyze(r *Run) *Model {
 				ce.TookOver = prev
 			}
 			m.Conns = append(m.Conns, ce)
-			if ack := findObs(s, p.ID, refmqtt.CONNACK, 0); ack != nil && ack.ReasonCode == 0 {
-				ce.Success, ce.SessionPresent = true, ack.SessionPresent
-				se, exists := m.Sessions[p.CID]
-				if exists && ce.TookOver >= 0 && se.Version < 5 && se.Clean {
-					// an MQTT 3 clean session lasts only as long as its network connection: taking the connection
-					// over ends it, whatever the new connection asks for (MQTT 3.1.1 §3.1.2.4)
-					exists = false
-				}
-				ce.ExpectSP = exists && !p.Connect.CleanStart
-				if !exists || p.Connect.CleanStart {
-					se = &Session{CID: p.CID, Subs: map[string]*SubState{}, CreatedStep: s.I}
-					m.Sessions[p.CID] = se
-				}
-				se.Version = p.Version
-				se.Clean = p.Connect.CleanStart
-				se.DiscStep = -1
-				se.ExpirySet, se.Expiry = false, 0
-				if p.Version == 5 && p.Connect.Props.SessionExpiry != nil {
-					se.ExpirySet, se.Expiry = true, *p.Connect.Props.SessionExpiry
-				}
-				m.Connected[p.CID] = p.ID
-			}
+			pending[p.ID] = ce
 		case "subscribe":
 			if s.Skipped {
 				break
@@ -186,11 +194,34 @@ func Analyze(r *Run) *Model {
 				}
 			}
 		}
+		// CONNACKs seen in this step complete their connect (usually the same step; later if the handler was parked)
+		for _, o := range s.Obs {
+			if o.P.Type == refmqtt.CONNACK {
+				if ce := pending[o.Peer]; ce != nil {
+					delete(pending, o.Peer)
+					if o.P.ReasonCode == 0 {
+						complete(s, ce, o.P)
+					}
+				}
+			}
+		}
 		// connections that ended during this step
 		for _, pid := range s.Closed {
 			p := r.Peers[pid]
 			if cur, ok := m.Connected[p.CID]; ok && cur == pid {
 				delete(m.Connected, p.CID)
+				// closed because a new connection with the same identifier is being established (its CONNACK is still
+				// to come: the new handler is parked): that is a takeover, the session's fate is decided at the CONNACK
+				takenOver := false
+				for _, ce := range pending {
+					if ce.CID == p.CID && ce.Peer != pid {
+						ce.TookOver = pid
+						takenOver = true
+					}
+				}
+				if takenOver {
+					continue
+				}
 				if se := m.Sessions[p.CID]; se != nil {
 					se.DiscStep, se.DiscAt = s.I, s.Now
 					ended := ""
